@@ -1,11 +1,12 @@
 import SfVerif.Model.Prelude
 /-! `provider/src/log.rs`: the log ring. `append` hands out a copy plan, the caller (native glue
     or trampoline) performs the copies, `read` is `read_ptrs` followed by the host reading the
-    two segments. Parametrised by the capacity (instantiated at the extracted constant). -/
+    two segments. Parametrised by the capacity (instantiated at the extracted constant).
+    The buffer and messages are byte lists (the copy is `take ++ bytes ++ drop`). -/
 namespace SfVerif
 
 structure Logs where
-  buf : Array UInt8
+  buf : List UInt8
   offset : Nat := 0
   len : Nat := 0
   deriving Repr, Inhabited
@@ -21,7 +22,7 @@ structure Plan where
 
 namespace Logs
 
-def init (cap : Nat) : Logs := { buf := Array.replicate cap 0 }
+def init (cap : Nat) : Logs := { buf := List.replicate cap 0 }
 
 /-- `Logs::append` -/
 def append (cap : Nat) (l : Logs) (n : Nat) : Logs × Plan :=
@@ -35,22 +36,21 @@ def append (cap : Nat) (l : Logs) (n : Nat) : Logs × Plan :=
     ({ l with len := cap, offset := (l.offset + n') % cap },
      { src := src, dst1 := l.offset, len1 := spaceToEnd, dst2 := some 0, len2 := n' - spaceToEnd })
 
-/-- copy `n` bytes of `msg` starting at `from` into the buffer at `dst` -/
-def blit (buf : Array UInt8) (dst : Nat) (msg : Bytes) (frm n : Nat) : Array UInt8 :=
-  if frm + n ≤ msg.size then blitAt buf dst (msg.extract frm (frm + n))
-  else (List.range n).foldl (fun b i => b.setIfInBounds (dst + i) msg[frm + i]!) buf
+/-- overwrite `xs` into `buf` starting at `pos` (a copy that stays inside the buffer) -/
+def blit (buf : List UInt8) (pos : Nat) (xs : List UInt8) : List UInt8 :=
+  buf.take pos ++ xs ++ buf.drop (pos + xs.length)
 
 /-- what the native glue / the trampoline does with a plan -/
-def applyPlan (l : Logs) (msg : Bytes) (p : Plan) : Logs :=
-  let b1 := blit l.buf p.dst1 msg p.src p.len1
+def applyPlan (l : Logs) (msg : List UInt8) (p : Plan) : Logs :=
+  let b1 := blit l.buf p.dst1 ((msg.drop p.src).take p.len1)
   let b2 := match p.dst2 with
-    | some d => blit b1 d msg (p.src + p.len1) p.len2
+    | some d => blit b1 d ((msg.drop (p.src + p.len1)).take p.len2)
     | none => b1
   { l with buf := b2 }
 
 /-- a whole log call -/
-def log (cap : Nat) (l : Logs) (msg : Bytes) : Logs :=
-  let (l', p) := append cap l msg.size
+def log (cap : Nat) (l : Logs) (msg : List UInt8) : Logs :=
+  let (l', p) := append cap l msg.length
   applyPlan l' msg p
 
 /-- `Logs::read_ptrs`: (offset 1, length 1, offset 2 (`none` = null), length 2) -/
@@ -62,8 +62,8 @@ def readPtrs (cap : Nat) (l : Logs) : Nat × Nat × Option Nat × Nat :=
 /-- the bytes the host reads: segment 1 followed by segment 2 -/
 def read (cap : Nat) (l : Logs) : List UInt8 :=
   match readPtrs cap l with
-  | (o1, l1, some o2, l2) => (l.buf.extract o1 (o1 + l1)).toList ++ (l.buf.extract o2 (o2 + l2)).toList
-  | (o1, l1, none, _) => (l.buf.extract o1 (o1 + l1)).toList
+  | (o1, l1, some o2, l2) => (l.buf.drop o1).take l1 ++ (l.buf.drop o2).take l2
+  | (o1, l1, none, _) => (l.buf.drop o1).take l1
 
 end Logs
 end SfVerif
